@@ -209,14 +209,20 @@ def check(case):
         # store
         tmp = tempfile.mkdtemp(prefix='vf_c18_', dir='/dev/shm' if os.path.isdir('/dev/shm') else None)
         try:
-            frames = [sf.Frame(np.array([[i * 100 + 1, i * 7], [3, i]]), index=('x', 'y'), columns=('a', 'b'), name='f%d' % i) for i in range(n)]
+            # every other frame has a depth-2 index, so the per-label configurations differ from one another and from the default
+            frames = [sf.Frame(np.array([[i * 100 + 1, i * 7], [3, i]]), columns=('a', 'b'), name='f%d' % i,
+                               index=('x', 'y') if i % 2 == 0 else sf.IndexHierarchy.from_labels((('x', 0), ('y', 1)))) for i in range(n)]
             bus = sf.Bus.from_frames(frames)
             fmt = case['fmt']
             writer = 'to_' + fmt
             reader = 'from_' + fmt
-            cfg_seq = sf.StoreConfig(index_depth=1)
-            cfg_par = sf.StoreConfig(index_depth=1, read_max_workers=case['workers'], write_max_workers=case['workers'],
-                                     read_chunksize=case['chunksize'], write_chunksize=case['chunksize'])
+
+            def cfgmap(**wkw):
+                return sf.StoreConfigMap({f.name: sf.StoreConfig(index_depth=f.index.depth, columns_depth=1, include_index=True, include_columns=True, **wkw)
+                                          for f in frames}, default=sf.StoreConfig(**wkw))
+            cfg_seq = cfgmap()
+            cfg_par = cfgmap(read_max_workers=case['workers'], write_max_workers=case['workers'],
+                             read_chunksize=case['chunksize'], write_chunksize=case['chunksize'])
             fp_seq, fp_par = os.path.join(tmp, 'seq.zip'), os.path.join(tmp, 'par.zip')
             w1 = lib(lambda: getattr(bus, writer)(fp_seq, config=cfg_seq))
             w2 = lib(lambda: getattr(bus, writer)(fp_par, config=cfg_par))
